@@ -155,12 +155,38 @@ let issue_sx (i : issue) : sx =
   L [A (string_of_kind i.ik); A (match i.io with Some o -> string_of_ocode o | None -> "-");
      str_sx (icode i); A (match isev i with Error -> "E" | Warning -> "W")]
 
+let sx_cfg (x : sx) : config = match x with
+  | L [ph; modern; da; req; uniq] ->
+    { c_ph = sx_bool ph; c_modern = sx_bool modern; c_defs_allowed = sx_bool da;
+      c_required = List.map sx_str (sx_list req); c_unique = List.map sx_str (sx_list uniq) }
+  | _ -> failwith "cfg"
+
+let res_sx (r : issue list res) : sx = match r with
+  | Exn e -> L [A "exn"; exn_sx e]
+  | Ok l -> L [A "ok"; L (List.map issue_sx l)]
+
+(* further commands:
+     (V takes_value ((word_ok (curly...))...))      -> (ok (issues))      value_class_issues
+     (S (cfg text forest) ...)                      -> ((ok|exn ...) ...)  vrun on ONE validator state *)
 let () = main_loop (fun x ->
   ignore (force_types O N0);
   match x with
-  | L [L [ph; modern; da; req; uniq]; text; L forest] ->
-    let cfg = { c_ph = sx_bool ph; c_modern = sx_bool modern; c_defs_allowed = sx_bool da;
-                c_required = List.map sx_str (sx_list req); c_unique = List.map sx_str (sx_list uniq) } in
+  | L [A "V"; tv; L cls] ->
+    let cv = List.map (function
+      | L [w; L chars] -> { cv_word = sx_bool w; cv_chars = List.map sx_bool chars }
+      | _ -> failwith "class_verdict") cls in
+    L [A "ok"; L (List.map issue_sx (value_class_issues (sx_bool tv) cv))]
+  | L (A "S" :: steps) ->
+    let parsed = List.map (function
+      | L [cfg; text; L forest] -> (sx_cfg cfg, (sx_str text, List.map sx_node forest))
+      | _ -> failwith "step") steps in
+    (match parsed with
+     | [] -> L []
+     | (cfg, _) :: _ ->
+       let (_, rs) = vrun cfg (List.map snd parsed) in
+       L (List.map res_sx rs))
+  | L [cfgx; text; L forest] ->
+    let cfg = sx_cfg cfgx in
     let s = sx_str text in
     let f = List.map sx_node forest in
     let agree = (match hedstring_init s with
@@ -171,4 +197,3 @@ let () = main_loop (fun x ->
      | Exn e -> L [A "exn"; exn_sx e]
      | Ok l -> L [A "ok"; L (List.map issue_sx l); bool_sx basic_err; bool_sx agree])
   | _ -> failwith "input")
-
